@@ -8,7 +8,15 @@ B = {'addr_bits': 5, 'origin': 4, 'page_size': 4, 'pre_zones_op': 'ZonesB',
      'pre_zones': [('GLOBAL', 4, 15), ('z1', 6, 9), ('z2', 14, 17)]}
 
 
+TOP = {'addr_bits': 5, 'origin': 0, 'page_size': 4, 'pre_zones_op': 'ZonesTop', 'pre_zones': [('z1', 28, 31)]}
+
+
 def instances(tier):
+    # the top of the address space: exact fills of GLOBAL and of a zone ending on the last address, one byte more, and
+    # definitions (predefined and #create_memzone) that end one beyond the last address
+    yield 'top-len4', dict(TOP, max_len=4 if tier == 'quick' else 5), 'AlphaC05top', None
+    yield 'predefined-zone-beyond', dict(TOP, max_len=1, pre_zones_op='ZonesBeyond', pre_zones=[('z1', 28, 32)]), 'AlphaC05top', None
+    yield 'predefined-global-beyond', dict(TOP, max_len=1, pre_zones_op='GlobalBeyond', pre_zones=[('GLOBAL', 0, 32)]), 'AlphaC05top', None
     if tier == 'quick':
         yield 'A-len3', dict(A, max_len=3), 'AlphaC05', None
         yield 'B-len3', dict(B, max_len=3), 'AlphaC05', None
